@@ -4,6 +4,35 @@ HERE = os.path.dirname(os.path.dirname(os.path.abspath(__file__)))
 sys.path.insert(0, HERE)
 
 
+def ensure_py312():
+    """/repo uses Python 3.12 syntax (PEP 701 f-strings) that the tooling interpreter (3.11)
+    cannot parse.  The VC generator therefore runs under a 3.12 interpreter: a venv built
+    offline from /venv's python plus the z3-solver wheel of the local wheelhouse
+    (/verif/build/py312, untracked; rebuilt here whenever it is missing)."""
+    if sys.version_info >= (3, 12):
+        return
+    import subprocess
+
+    venv = os.path.join(HERE, "build", "py312")
+    py = os.path.join(venv, "bin", "python")
+    ok = os.path.exists(py) and subprocess.run([py, "-c", "import z3"], capture_output=True).returncode == 0
+    if not ok:
+        import shutil
+
+        shutil.rmtree(venv, ignore_errors=True)
+        os.makedirs(os.path.dirname(venv), exist_ok=True)
+        subprocess.run(["/venv/bin/python", "-m", "venv", venv], check=True)
+        subprocess.run([py, "-m", "pip", "install", "-q", "--no-index", "--find-links", "/opt/veriftools/wheels", "z3-solver"], check=True,
+                       env=dict(os.environ, PIP_NO_INDEX="1", PIP_DISABLE_PIP_VERSION_CHECK="1"))
+    env = dict(os.environ)
+    env["PYTHONPATH"] = HERE
+    env["PYTHONDONTWRITEBYTECODE"] = "1"
+    os.execve(py, [py, "-m", "vf"] + sys.argv[1:], env)
+
+
+ensure_py312()
+
+
 def main():
     ap = argparse.ArgumentParser(prog="vf")
     sub = ap.add_subparsers(dest="cmd", required=True)
